@@ -180,8 +180,8 @@ func (r *recallWantlist) clearSentAt(c cid.Cid) {
 	delete(r.sentAt, c)
 }
 
-// refresh moves wants from the sent list back to the pending list.
-// If a want has been sent for longer than the interval, it is moved back to the pending list.
+// refresh copies wants from the sent list back to the pending list.
+// If a want has been sent for longer than the interval, it is added to the pending list again.
 // Returns the number of wants that were refreshed.
 func (r *recallWantlist) refresh(now time.Time, interval time.Duration) int {
 	var refreshed int
@@ -189,7 +189,9 @@ func (r *recallWantlist) refresh(now time.Time, interval time.Duration) int {
 		wantCid := want.Cid
 		sentAt, ok := r.sentAt[wantCid]
 		if ok && now.Sub(sentAt) >= interval {
-			r.sent.Remove(wantCid)
+			// Keep the want in the sent list: the peer still has it, and
+			// AddCancels must know that in order to send a cancel if the
+			// want is cancelled before it has been re-sent.
 			r.pending.Add(wantCid, want.Priority, want.WantType)
 			refreshed++
 		}
